@@ -163,6 +163,16 @@ func init() {
 	}, zz+"IteInt", zz+"IteInt64")
 	reg(func(p *Path, fr *frame, fn *ssa.Function, a []Value) Value { return strEq(a[0], a[1]) }, zz+"StrEq")
 	reg(func(p *Path, fr *frame, fn *ssa.Function, a []Value) Value {
+		// encoded documents (json/xml Marshal results, opaque request bodies) are one opaque element: equal iff the same document
+		if hx, hy := docHandle(a[0]), docHandle(a[1]); hx != nil || hy != nil {
+			if hx == hy {
+				return sym.True
+			}
+			if hx == nil || hy == nil {
+				panic(unmodelled{"BytesEq of an encoded document and modelled bytes"})
+			}
+			panic(unmodelled{"BytesEq of two different encoded documents"})
+		}
 		x, y := seqBytes(a[0]), seqBytes(a[1])
 		if len(x) != len(y) {
 			return sym.False
@@ -762,4 +772,14 @@ func (p *Path) ufArgEq(fr *frame, a, b Value) *sym.Term {
 		return sym.False
 	}
 	return p.equals(fr, a, b)
+}
+
+// docHandle returns the handle of an encoded document held in a byte slice (nil if v is ordinary bytes).
+func docHandle(v Value) *Handle {
+	if sl, ok := v.(Slice); ok && len(sl.A) == 1 {
+		if h, ok := sl.A[0].(*Handle); ok {
+			return h
+		}
+	}
+	return nil
 }
